@@ -48,7 +48,10 @@ def rand_var(rng, sc, slots_for_size):
         init = bytes(rng.randrange(256) for _ in range(ln))
         if t == VT_STR and rng.random() < 0.8:
             k = rng.randint(0, max(0, size - 1))
-            body = bytes(rng.choice(b'ab"\\\n,xyzQ1 ') for _ in range(k))
+            if rng.random() < 0.3:
+                body = bytes(rng.choice([x for x in range(1, 256) if x != 13]) for _ in range(k))
+            else:
+                body = bytes(rng.choice(b'ab"\\\n,xyzQ1 \t') for _ in range(k))
             init = (body + b"\0" * ln)[:ln]
         slot = sc.slot(ln, init)
     acc = rng.choice([RW, RW, RW, RO, WO])
@@ -125,6 +128,8 @@ def int_text(rng, bits=None, signed=True):
         s = "0" * rng.randint(1, 4) + s
     if signed:
         s = rng.choice(["", "", "-", "-", "+"]) + s
+    if rng.random() < 0.06:
+        s = rng.choice(["-", "+", "", "--1", "+-1", "-+", "1-", " 1", "1 ", "0x", "0X", "-0", "+0", "00", "-", "+"])
     return s.encode()
 
 
@@ -140,6 +145,8 @@ def hex_text(rng, bits=None):
         s = s.lower()
     if rng.random() < 0.2:
         s = "0" * rng.randint(1, 3) + s
+    if rng.random() < 0.06:
+        return rng.choice([b"0x", b"0X", b"x1", b"0", b"1x2", b"0xG", b"0x-1", b"", b"0x 1"])
     return (rng.choice(["0x", "0x", "0X"]) + s).encode()
 
 
